@@ -7,7 +7,7 @@ VERIF = os.path.dirname(os.path.dirname(os.path.abspath(__file__)))
 man = json.load(open(os.path.join(VERIF, "MANIFEST.json")))
 claimed = [c["property_id"] for c in man["checks"]]
 names = sys.argv[1:] or sorted(os.path.basename(d) for d in glob.glob(os.path.join(VERIF, "benign", "*-*")))
-mir_props = [c["property_id"] for c in man["checks"] if "mirfacts" in c.get("engine", "")]
+mir_props = ["C01", "C17"]  # SKIP_MIR=1: these are skipped; MIR-based rules of other properties are switched off (VERIF_SKIP_MIR_RULES)
 
 def one(name):
     d = os.path.join(VERIF, "benign", name)
@@ -25,6 +25,8 @@ def one(name):
             if os.environ.get("ONLY") and pid not in os.environ["ONLY"].split(","):
                 continue
             env = dict(os.environ, VERIF_REPO=tmp, VERIF_EVIDENCE_DIR=etmp)
+            if os.environ.get("SKIP_MIR") == "1":
+                env["VERIF_SKIP_MIR_RULES"] = "1"
             rr = subprocess.run([os.path.join(VERIF, "bin/check"), pid, "--quick"], env=env, capture_output=True, text=True)
             if rr.returncode != 0:
                 keys = [l.strip()[len("construct: "):] for l in rr.stdout.splitlines() if l.strip().startswith("construct:")]
